@@ -60,11 +60,14 @@ func ResName(i int) string { return fmt.Sprintf("res-%d", i) }
 
 // EntryOpts builds the option list of an Entry call.
 func EntryOpts(batch uint32, inbound bool, args []interface{}, attach map[interface{}]interface{}, chain *base.SlotChain) []sentinel.EntryOption {
-	opts := []sentinel.EntryOption{sentinel.WithBatchCount(batch)}
+	// An option that would only state the documented default (batch 1, outbound) is left out: the call then
+	// depends on the pooled option object having been put back in its default state by the entry before it.
+	var opts []sentinel.EntryOption
+	if batch != 1 {
+		opts = append(opts, sentinel.WithBatchCount(batch))
+	}
 	if inbound {
 		opts = append(opts, sentinel.WithTrafficType(base.Inbound))
-	} else {
-		opts = append(opts, sentinel.WithTrafficType(base.Outbound))
 	}
 	if len(args) > 0 {
 		opts = append(opts, sentinel.WithArgs(args...))
